@@ -30,6 +30,17 @@ func notClaimed() [][2]string {
 func props() []prop {
 	return []prop{
 		{
+			ID: "C10", Level: "exploration",
+			LevelText:   "Free-running hammer under the Go race detector on all cores: many goroutines call exactly the API documented as concurrency-safe while actors spawn from their handlers, fail under every decision and die; one child process per batch so that a process-fatal error (concurrent map access) is attributed; the deciding monitors are the race detector's reports whose stacks contain vivid code (de-duplicated by the pair of innermost vivid frames), the crash sentinel, and the tree-consistency invariant (registry == set reachable from the root through children) sampled at quiescence. The race detector additionally runs in the futures and event-stream units.",
+			LevelNote:   "Trusted: the race detector only reports races that occur in the batch; a silent run is not race-freedom. ActorContext.ActorOf is documented as not concurrency-safe and is only called from the owning handler.",
+			Technique:   "race detector + crash sentinel + hooked-state invariant under a concurrent stress workload",
+			DesignRef:   "DESIGN.md §4 C10",
+			Assumptions: with("only the API documented as concurrency-safe is called from foreign goroutines"),
+			Units: []unit{
+				{Check: "hammer", Pkg: "internal/actor", Race: true, Shards: [2]int{4, 8}, Timeout: [2]time.Duration{8 * min, 40 * min}, CrashKey: "c10-crash", HangKind: "c10-hang", OnlyKinds: []string{"c10-", "data-race", "harness-"}},
+			},
+		},
+		{
 			ID: "C07", Level: "exploration",
 			LevelText:   "All sequential call sequences of length <= 4 over {Start, Stop, Stop(t), context cancel} and PRNG scenarios with groups of concurrent calls are executed on real systems (populated with trees in awkward states: restart in progress, paused supervisor, stash content, zombie, an actor held in a handler) inside a synctest bubble. The recorded call/return/result history must be linearizable (porcupine) w.r.t. the ready->started->stopped reference machine; every call must return within its timeout of virtual time (rejections in zero time); after a successful Stop or a cancel nothing may be registered; synctest reports any goroutine of the system left blocked when the scenario ends. An inject tier puts a maximal delay at one statement of Start/stop so that the other calls land inside it. A real-time unit repeats Start/Stop with remoting between two systems and polls the goroutine profile for frames of vivid/go-quartz.",
 			LevelNote:   "Trusted: porcupine, synctest (virtual-time bounds are exact; leftover goroutines are reported by the runtime), the goroutine-profile parser of the real-time unit (bounded polling, stall-gated).",
